@@ -541,11 +541,23 @@ func exec(r *regs, st *Step) (res result) {
 	case "Point.VarTimeDoubleScalarBaseMult":
 		res.ret = retPoint(r, st.R, r.P(st.R).VarTimeDoubleScalarBaseMult(r.S(a[0]), r.P(a[1]), r.S(a[2])))
 	case "Point.MultiScalarMult", "Point.VarTimeMultiScalarMult":
-		ss := make([]*ed.Scalar, len(st.SS))
+		// the slices have spare capacity, and the backing arrays beyond their length hold stale (valid) pointers, as a
+		// reused buffer would: nothing beyond len() may be looked at
+		const spare = 4
+		ssFull := make([]*ed.Scalar, len(st.SS)+spare)
+		for i := range ssFull {
+			ssFull[i] = r.s[i%nScalars]
+		}
+		ss := ssFull[:len(st.SS)]
 		for i, n := range st.SS {
 			ss[i] = r.S(n)
 		}
-		ps := make([]*ed.Point, len(st.PS))
+		stale := ed.NewGeneratorPoint()
+		psFull := make([]*ed.Point, len(st.PS)+spare)
+		for i := range psFull {
+			psFull[i] = stale
+		}
+		ps := psFull[:len(st.PS)]
 		for i, n := range st.PS {
 			ps[i] = r.P(n)
 		}
